@@ -4,24 +4,31 @@
 (* C17).  The syntax tree holds per-evaluation state: every anonymous      *)
 (* symbol of a splat has a map  values : EvalContext -> Value  protected   *)
 (* by a read/write lock.  Each goroutine g evaluates the expression in its *)
-(* own context Ctx[g]; the methods setValue / Value / clearValue hold the  *)
-(* lock for their whole body, so each is one atomic action here, and the   *)
+(* own context; the methods setValue / Value / clearValue hold the lock    *)
+(* for their whole body, so each is one atomic action here, and the        *)
 (* actions of different goroutines interleave freely.                      *)
 (*                                                                         *)
-(* Program of one evaluation of  src[*].inner[*]  (two nested symbols):    *)
+(* Program of one evaluation of  src[*][*]  (two nested symbols) when the  *)
+(* source of goroutine g is non-empty (Kind[g] = "full"):                  *)
 (*   for each outer item i:   Set(outer, i); Read(outer)      -- inner src *)
 (*        for each inner item j: Set(inner, j); Read(inner)                *)
 (*        Clear(inner)                                                     *)
 (*   Clear(outer)                                                          *)
-(* With NInner = 0 the inner loop is absent (a plain  src[*].attr ).       *)
+(* and when it is an EMPTY list (Kind[g] = "empty") - the evaluator then   *)
+(* probes the result type with unknown values in child contexts:           *)
+(*   Clear(outer)                       -- the loop ran zero times         *)
+(*   Set(outer, probe) in child context p1;  Read(outer) in p1             *)
+(*        Set(inner, probe) in child context p2;  Read(inner) in p2;  Clear(inner) in p2 *)
+(*   Clear(outer) in p1                                                    *)
 (***************************************************************************)
 EXTENDS Integers, Sequences, FiniteSets, TLC
 
-CONSTANTS G,        \* set of goroutines
-          Ctx,      \* function goroutine -> evaluation context id
+CONSTANTS G,        \* set of goroutines (positive integers)
+          Ctx,      \* function goroutine -> evaluation context id (positive integer < 100)
+          Kind,     \* function goroutine -> "full" | "empty"
           NOuter, NInner
 
-VARIABLES values,   \* [sym -> [ctx -> value or "absent"]]
+VARIABLES values,   \* [sym -> [ctx -> value or Absent]]
           pc,       \* [g -> program counter record]
           got,      \* [g -> sequence of values read so far]
           sched     \* sequence of <<op, g>>: the interleaving taken (the schedule to replay)
@@ -29,54 +36,63 @@ VARIABLES values,   \* [sym -> [ctx -> value or "absent"]]
 vars == <<values, pc, got, sched>>
 
 Syms == {"outer", "inner"}
-CtxIds == {Ctx[g] : g \in G}
+P1(g) == 100 + g            \* child context of the type probe
+P2(g) == 200 + g            \* its child (probe of the inner splat)
+CtxIds == {Ctx[g] : g \in G} \cup {P1(g) : g \in G} \cup {P2(g) : g \in G}
 Absent == <<"absent">>
 Item(g, sym, i, j) == <<g, sym, i, j>>      \* values are tagged with their goroutine
+Probe(g, sym) == <<g, sym, -1, -1>>         \* the unknown value used by the type probe
 
-\* pc: [ph, i, j]; ph in set_o read_o set_i read_i clear_i clear_o done
+\* pc: [ph, i, j]
 PC(ph, i, j) == [ph |-> ph, i |-> i, j |-> j]
+StartPC(g) == IF Kind[g] = "empty" THEN PC("e_clear_o", 0, 0)
+              ELSE IF NOuter = 0 THEN PC("clear_o", 0, 0) ELSE PC("set_o", 1, 0)
 
 Init == /\ values = [s \in Syms |-> [c \in CtxIds |-> Absent]]
-        /\ pc = [g \in G |-> IF NOuter = 0 THEN PC("clear_o", 0, 0) ELSE PC("set_o", 1, 0)]
+        /\ pc = [g \in G |-> StartPC(g)]
         /\ got = [g \in G |-> <<>>]
         /\ sched = <<>>
 
 Log(op, g) == sched' = Append(sched, <<op, g>>)
 
-SetOuter(g) == /\ pc[g].ph = "set_o"
-               /\ values' = [values EXCEPT !["outer"][Ctx[g]] = Item(g, "outer", pc[g].i, 0)]
-               /\ pc' = [pc EXCEPT ![g] = PC("read_o", pc[g].i, 0)]
-               /\ Log("set", g) /\ UNCHANGED got
+\* generic map operations (the three methods of the anonymous symbol)
+DoSet(g, sym, c, v, nextpc) ==
+    /\ values' = [values EXCEPT ![sym][c] = v]
+    /\ pc' = [pc EXCEPT ![g] = nextpc]
+    /\ Log("set", g) /\ UNCHANGED got
+DoRead(g, sym, c, nextpc) ==
+    /\ got' = [got EXCEPT ![g] = Append(@, values[sym][c])]
+    /\ pc' = [pc EXCEPT ![g] = nextpc]
+    /\ Log("read", g) /\ UNCHANGED values
+DoClear(g, sym, c, nextpc) ==
+    /\ values' = [values EXCEPT ![sym][c] = Absent]
+    /\ pc' = [pc EXCEPT ![g] = nextpc]
+    /\ Log("clear", g) /\ UNCHANGED got
 
-ReadOuter(g) == /\ pc[g].ph = "read_o"
-                /\ got' = [got EXCEPT ![g] = Append(@, values["outer"][Ctx[g]])]
-                /\ pc' = [pc EXCEPT ![g] = IF NInner > 0 THEN PC("set_i", pc[g].i, 1)
-                                           ELSE IF pc[g].i < NOuter THEN PC("set_o", pc[g].i + 1, 0)
-                                           ELSE PC("clear_o", pc[g].i, 0)]
-                /\ Log("read", g) /\ UNCHANGED values
+\* --- non-empty source ---
+SetOuter(g) == pc[g].ph = "set_o" /\ DoSet(g, "outer", Ctx[g], Item(g, "outer", pc[g].i, 0), PC("read_o", pc[g].i, 0))
+ReadOuter(g) == pc[g].ph = "read_o" /\
+    DoRead(g, "outer", Ctx[g], IF NInner > 0 THEN PC("set_i", pc[g].i, 1)
+                               ELSE IF pc[g].i < NOuter THEN PC("set_o", pc[g].i + 1, 0) ELSE PC("clear_o", pc[g].i, 0))
+SetInner(g) == pc[g].ph = "set_i" /\ DoSet(g, "inner", Ctx[g], Item(g, "inner", pc[g].i, pc[g].j), PC("read_i", pc[g].i, pc[g].j))
+ReadInner(g) == pc[g].ph = "read_i" /\
+    DoRead(g, "inner", Ctx[g], IF pc[g].j < NInner THEN PC("set_i", pc[g].i, pc[g].j + 1) ELSE PC("clear_i", pc[g].i, pc[g].j))
+ClearInner(g) == pc[g].ph = "clear_i" /\
+    DoClear(g, "inner", Ctx[g], IF pc[g].i < NOuter THEN PC("set_o", pc[g].i + 1, 0) ELSE PC("clear_o", pc[g].i, 0))
+ClearOuter(g) == pc[g].ph = "clear_o" /\ DoClear(g, "outer", Ctx[g], PC("done", 0, 0))
 
-SetInner(g) == /\ pc[g].ph = "set_i"
-               /\ values' = [values EXCEPT !["inner"][Ctx[g]] = Item(g, "inner", pc[g].i, pc[g].j)]
-               /\ pc' = [pc EXCEPT ![g] = PC("read_i", pc[g].i, pc[g].j)]
-               /\ Log("set", g) /\ UNCHANGED got
+\* --- empty source: clear, then the type probe in child contexts ---
+EClearOuter(g)  == pc[g].ph = "e_clear_o"  /\ DoClear(g, "outer", Ctx[g], PC("e_set_o", 0, 0))
+ESetOuter(g)    == pc[g].ph = "e_set_o"    /\ DoSet(g, "outer", P1(g), Probe(g, "outer"), PC("e_read_o", 0, 0))
+EReadOuter(g)   == pc[g].ph = "e_read_o"   /\ DoRead(g, "outer", P1(g), PC("e_set_i", 0, 0))
+ESetInner(g)    == pc[g].ph = "e_set_i"    /\ DoSet(g, "inner", P2(g), Probe(g, "inner"), PC("e_read_i", 0, 0))
+EReadInner(g)   == pc[g].ph = "e_read_i"   /\ DoRead(g, "inner", P2(g), PC("e_clear_i", 0, 0))
+EClearInner(g)  == pc[g].ph = "e_clear_i"  /\ DoClear(g, "inner", P2(g), PC("e_clear_o2", 0, 0))
+EClearOuter2(g) == pc[g].ph = "e_clear_o2" /\ DoClear(g, "outer", P1(g), PC("done", 0, 0))
 
-ReadInner(g) == /\ pc[g].ph = "read_i"
-                /\ got' = [got EXCEPT ![g] = Append(@, values["inner"][Ctx[g]])]
-                /\ pc' = [pc EXCEPT ![g] = IF pc[g].j < NInner THEN PC("set_i", pc[g].i, pc[g].j + 1)
-                                           ELSE PC("clear_i", pc[g].i, pc[g].j)]
-                /\ Log("read", g) /\ UNCHANGED values
-
-ClearInner(g) == /\ pc[g].ph = "clear_i"
-                 /\ values' = [values EXCEPT !["inner"][Ctx[g]] = Absent]
-                 /\ pc' = [pc EXCEPT ![g] = IF pc[g].i < NOuter THEN PC("set_o", pc[g].i + 1, 0) ELSE PC("clear_o", pc[g].i, 0)]
-                 /\ Log("clear", g) /\ UNCHANGED got
-
-ClearOuter(g) == /\ pc[g].ph = "clear_o"
-                 /\ values' = [values EXCEPT !["outer"][Ctx[g]] = Absent]
-                 /\ pc' = [pc EXCEPT ![g] = PC("done", 0, 0)]
-                 /\ Log("clear", g) /\ UNCHANGED got
-
-Next == \E g \in G : SetOuter(g) \/ ReadOuter(g) \/ SetInner(g) \/ ReadInner(g) \/ ClearInner(g) \/ ClearOuter(g)
+Next == \E g \in G : \/ SetOuter(g) \/ ReadOuter(g) \/ SetInner(g) \/ ReadInner(g) \/ ClearInner(g) \/ ClearOuter(g)
+                     \/ EClearOuter(g) \/ ESetOuter(g) \/ EReadOuter(g) \/ ESetInner(g) \/ EReadInner(g)
+                     \/ EClearInner(g) \/ EClearOuter2(g)
 Spec == Init /\ [][Next]_vars
 
 ---------------------------------------------------------------------------
@@ -84,12 +100,13 @@ Spec == Init /\ [][Next]_vars
 RECURSIVE SeqOuter(_, _), SeqInner(_, _, _)
 SeqInner(g, i, j) == IF j > NInner THEN <<>> ELSE <<Item(g, "inner", i, j)>> \o SeqInner(g, i, j + 1)
 SeqOuter(g, i) == IF i > NOuter THEN <<>> ELSE <<Item(g, "outer", i, 0)>> \o SeqInner(g, i, 1) \o SeqOuter(g, i + 1)
+Alone(g) == IF Kind[g] = "empty" THEN <<Probe(g, "outer"), Probe(g, "inner")>> ELSE SeqOuter(g, 1)
 
 IsPrefix(a, b) == Len(a) <= Len(b) /\ SubSeq(b, 1, Len(a)) = a
 
 \* every read returns what the same goroutine set: concurrent == sequential
-ReadOwn == \A g \in G : IsPrefix(got[g], SeqOuter(g, 1))
+ReadOwn == \A g \in G : IsPrefix(got[g], Alone(g))
 \* when everybody is done nothing is left in the shared tree
-NoLeak == (\A g \in G : pc[g].ph = "done") => \A s \in Syms, c \in CtxIds : values[s][c] = Absent
 AllDone == \A g \in G : pc[g].ph = "done"
+NoLeak == AllDone => \A s \in Syms, c \in CtxIds : values[s][c] = Absent
 =============================================================================
